@@ -129,4 +129,83 @@ def exVal : PVal := .obj "votelib.evaluate.core.Conditioned"
 example : Representable exEnv exVal = true := by decide +kernel
 example : Serializable (.list [.callable "votelib.component.divisor._modified_divisor" false]) = false := by decide +kernel
 
+
+/-! ## Part 2 — BLT files at token level -/
+open VL.Blt
+
+/-- **Round trip.**  A document whose ballots name listed candidates, are pairwise different, and whose weights are
+    non-negative with a BLT spelling (int, Decimal, integral Fraction) is written by `dump_lines` to lines that
+    `load_lines` reads back to the same seats, candidate names, withdrawn flags (any subset, any position: line
+    `-(i+1)`), ballots with their weights (by value), and title — including the one-candidate and no-candidate
+    cases of the candidate/title disambiguation. -/
+theorem blt_roundtrip (d : Doc Weight) (h : WFdoc d = true) : loadBlt (dumpBlt d) = .ok (eraseDoc d) :=
+  load_dump d h
+
+/-- **Which exceptions the parser can raise at all** (any token lines): the format's ParseError, or one of three
+    foreign ones — decimal.InvalidOperation (a first item that is not a number, NaN weight), ValueError (digits
+    `int()` refuses), IndexError (candidate number beyond the header count). -/
+theorem blt_error_kinds (ls : List Line) (e : Err) (h : loadBlt ls = .error e) :
+    e = Err.parseError ∨ e = Err.other "ValueError" ∨ e = Err.other "InvalidOperation" ∨ e = Err.other "IndexError" := by
+  rcases loadBlt_err ls e h with (h1 | h1 | h1) | h1
+  · exact Or.inl h1
+  · exact Or.inr (Or.inl h1)
+  · exact Or.inr (Or.inr (Or.inl h1))
+  · exact Or.inr (Or.inr (Or.inr h1))
+
+/-! The full statement `blt_parse_total : ∀ ls, (∃ d, loadBlt ls = .ok d) ∨ loadBlt ls = .error .parseError` is FALSE of
+    the current parser (three witnesses below; a fourth shows wrong data returned silently).  What holds: every
+    *structural* defect of a lexically sane text (all items of the lines read as number lines are numbers) — missing
+    end marker, ballot not zero-terminated, withdrawn line after a ballot, wrong number of strings, unquoted string,
+    string after a blank line, bad header — is a ParseError; the only other exception left is IndexError. -/
+theorem blt_parse_total_partial (ls : List Line) (hl : lexOK ls = true) :
+    (∃ d, loadBlt ls = .ok d) ∨ loadBlt ls = .error Err.parseError ∨ loadBlt ls = .error (Err.other "IndexError") := by
+  cases h : loadBlt ls with
+  | ok d => exact Or.inl ⟨d, rfl⟩
+  | error e =>
+    rcases loadBlt_lexOK ls e hl h with h1 | h1
+    · subst h1; exact Or.inr (Or.inl rfl)
+    · subst h1; exact Or.inr (Or.inr rfl)
+
+/-- `"2 1\nabc 1 0\n0"`: decimal.InvalidOperation -/
+theorem blt_parse_total_witness_invalid_operation :
+    loadBlt [.toks [.nat 2, .nat 1], .toks [.bad, .nat 1, .nat 0], .toks [.nat 0]] = .error (Err.other "InvalidOperation") := by
+  rfl
+/-- `"2 1\n1 ² 0\n0"`: ValueError -/
+theorem blt_parse_total_witness_value_error :
+    loadBlt [.toks [.nat 2, .nat 1], .toks [.nat 1, .udigit, .nat 0], .toks [.nat 0]] = .error (Err.other "ValueError") := by
+  rfl
+/-- `"2 1\n1 3 0\n0"`: IndexError -/
+theorem blt_parse_total_witness_index_error :
+    loadBlt [.toks [.nat 2, .nat 1], .toks [.nat 1, .nat 3, .nat 0], .toks [.nat 0]] = .error (Err.other "IndexError") := by
+  decide +kernel
+/-- `"2 1\n1 0 2 0\n0"`: candidate number 0 inside a ballot is read as the LAST candidate (Python index -1) -/
+theorem blt_zero_index_alias_witness :
+    loadBlt [.toks [.nat 2, .nat 1], .toks [.nat 1, .nat 0, .nat 2, .nat 0], .toks [.nat 0]]
+      = .ok { nSeats := 1, cands := [("1", false), ("2", false)], ballots := [([1, 1], 1)], title := none } := by
+  decide +kernel
+
+theorem blt_parse_total_witness :
+    ¬ ∀ ls : List Line, (∃ d, loadBlt ls = .ok d) ∨ loadBlt ls = .error Err.parseError := by
+  intro h
+  have hw := blt_parse_total_witness_index_error
+  rcases h _ with ⟨d, hd⟩ | he
+  · rw [hw] at hd; cases hd
+  · rw [hw] at he; cases he
+
+/-- a proper Fraction weight has no BLT spelling: the writer emits an item the parser cannot read
+    (`dumps({('a','b'): Fraction(1,2)}, ...)` then `loads`: decimal.InvalidOperation) -/
+theorem blt_fraction_weight_witness :
+    loadBlt (dumpBlt { nSeats := 1, cands := [("a", false), ("b", false)], ballots := [([0, 1], .fraction (1/2))], title := none })
+      = .error (Err.other "InvalidOperation") := by
+  decide +kernel
+
+/-- non-vacuity: withdrawn first and last candidate, empty ballot, Decimal and integral-Fraction weights, title -/
+def exDoc : Doc Weight :=
+  { nSeats := 2, cands := [("Ann", true), ("J. Smith", false), ("Cy", true)],
+    ballots := [([0, 2, 1], .int 3), ([], .decimal (3/2) false), ([1], .fraction 2), ([2, 0], .decimal 7 true)],
+    title := some "Council" }
+example : WFdoc exDoc = true := by decide +kernel
+example : lexOK (dumpBlt exDoc) = true := by decide +kernel
+example : lexOK [.toks [.nat 2, .nat 1], .toks [.nat 1, .nat 1], .toks [.nat 0]] = true := by decide +kernel
+
 end VL.C19
